@@ -37,6 +37,12 @@ func C14Configs(p *spec.Program) []spec.Config {
 	// no exact key for the qualified types: shorter, overlapping keys must not be picked by iteration order
 	b.Suffixes = map[string]string{"CustomRatio": "Ratio", "CustomBool": "BoolSpecial", "Traits": "AnyTraits", "wrappers.Traits": "WrappersTraits",
 		"x/wrappers.Traits": "XWrappersTraits", "ByPath": "P", "wrappers.ByPath": "WP"}
+	// chained entries: the value of one is the key of the next (a lookup is a single step)
+	b.ImportPathOverrides["example.com/moved/types"] = "example.com/v2/types"
+	b.ImportPathOverrides["example.com/v2/types"] = "example.com/fork/v2/types"
+	b.ImportPathOverrides["example.com/fork/v2/types"] = "example.com/final/types"
+	b.ImportPathOverrides["example.com/y/wrappers"] = "example.com/z/wrappers"
+	b.ImportPathOverrides["example.com/z/wrappers"] = "example.com/zz/wrappers"
 	b.ImportPathOverrides["example.com/api"] = "example.com/moved"
 	b.ImportPathOverrides["types"] = "example.com/short/types"
 	b.ImportPathOverrides["example.com/x/wrappers"] = "example.com/y/wrappers"
